@@ -116,7 +116,7 @@ class CosimEngine(Engine):
     rule = ('Each run is a history of up to 16 operations in one fresh scratch directory. invoke: atomman.lammps.run() with the '
             'stub LAMMPS behind it (script or script file, restart script or not, one of six log-file names or no log file, '
             'screen on/off, mpi prefix, suffix); the stub prints a log from the documented layout (16 version banners, either '
-            'memory banner, 0-4 run/minimize blocks, Step plus 0-11 keywords from a 68-keyword vocabulary with Step anywhere, '
+            'memory banner, 0-4 run/minimize blocks, Step plus 0-11 keywords from a 68-keyword vocabulary or generated compute/fix/variable IDs over [A-Za-z0-9_] with optional indices, Step anywhere, '
             'six row formats, 0-60 rows, integers beyond 2^31, non-finite tokens, echoed script lines including empty and '
             'whitespace-only ones, balanced quotes, warnings in the preamble only, new-style / old-style / no timing breakdown, '
             'minimisation statistics) and ends cleanly, with ERROR + exit 1, or is killed after b bytes (13 placement classes, '
@@ -188,6 +188,17 @@ class CosimEngine(Engine):
         k = r.choice([0, 1, 2, 3, 4, 5, 6, 8, 11])
         pool = fl.INT_KEYS + fl.FLOAT_KEYS
         others = r.sample(pool, k)
+        # user-defined compute / fix / variable IDs: any alphanumerics and underscores, optionally indexed
+        alphabet = 'ABCDEFGHIJKLMNOPQRSTUVWXYZabcdefghijklmnopqrstuvwxyz0123456789_'
+        for i in range(len(others)):
+            if r.random() < 0.3:
+                name = r.choice(['c_', 'f_', 'v_']) + ''.join(r.choice(alphabet) for _ in range(r.randint(1, 8)))
+                if r.random() < 0.4:
+                    name += '[%d]' % r.randint(1, 12)
+                    if r.random() < 0.2:
+                        name += '[%d]' % r.randint(1, 3)
+                if name not in others and name not in fl.INT_KEYS:
+                    others[i] = name
         if r.random() < 0.85:
             cols = ['Step'] + others
         else:
